@@ -32,6 +32,54 @@ SHAPES = [
 ]  # fmt: skip
 
 
+# element-structured shapes: (total width, granularity in bits, element width).  The memory shape is
+# ArrayLayout(elem, width // elem) and the constructor's `granularity` argument then counts ELEMENTS (amaranth's rule),
+# while the reference model keeps working on bits.  "struct" = a two-field StructLayout (no granularity allowed).
+ELEM_SHAPES = [
+    (8, 4, 2), (8, 2, 2), (6, 3, 3), (4, 2, 1), (9, 3, 3), (8, 4, 4), (6, 2, 2), (8, None, 2), (6, None, 3),
+    (8, None, "struct"), (5, None, "struct"),
+]  # fmt: skip
+
+
+def make_shape(width: int, elem):
+    """the `shape` constructor argument"""
+    from amaranth.lib import data
+
+    if elem is None:
+        return width
+    if elem == "struct":
+        return data.StructLayout({"lo": width // 2, "hi": width - width // 2})
+    return data.ArrayLayout(elem, width // elem)
+
+
+def gran_arg(gran, elem):
+    """the `granularity` constructor argument"""
+    if gran is None or elem in (None, "struct"):
+        return gran
+    return gran // elem
+
+
+def to_data(v: int, width: int, elem):
+    """python int -> value accepted for a field of that shape"""
+    if elem is None:
+        return v
+    if elem == "struct":
+        lo = width // 2
+        return {"lo": v & ((1 << lo) - 1), "hi": v >> lo}
+    return [(v >> (i * elem)) & ((1 << elem) - 1) for i in range(width // elem)]
+
+
+def from_data(x, width: int, elem) -> int:
+    if elem is None:
+        return x
+    if elem == "struct":
+        return x["lo"] | (x["hi"] << (width // 2))
+    out = 0
+    for i, e in enumerate(x):
+        out |= e << (i * elem)
+    return out
+
+
 def divisors(n: int) -> list[int]:
     return [d for d in range(1, n + 1) if n % d == 0]
 
